@@ -178,17 +178,23 @@ def run_append_output(report, max_order):
     try:
         for order in range(0, max_order + 1):
             for modes in itertools.product([Mode.dense, Mode.compressed], repeat=order):
+              for ordering in ([tuple(range(order))] if order < 2 else [tuple(range(order)), tuple(reversed(range(order)))]):
                 n_shapes += 1
-                idx = tuple(f"i{k}" for k in range(order))
+                idx = tuple(f"i{k}" for k in range(order))  # index variable of each LEVEL
                 tensor = ie.Tensor("0_T", "T", idx, tuple(modes))
                 out = AppendOutput(tensor, 0)
-                shape = "".join(x.character for x in modes) or "scalar"
-                dimv = [Int(f"{n}_dim") for n in idx]
+                shape = ("".join(x.character + str(o) for x, o in zip(modes, ordering)) if ordering != tuple(range(order)) else "".join(x.character for x in modes)) or "scalar"
+                leveldim = [Int(f"{n}_dim") for n in idx]
+                # T->dimensions[d] is the size of DIMENSION d; level l stores dimension ordering[l]
+                rawdim = [None] * order
+                for l, d in enumerate(ordering):
+                    rawdim[d] = leveldim[l]
+                dimv = leveldim
                 for kt in (KernelType.evaluate, KernelType.assemble):
                     # ---------------- write_declarations ----------------
                     frag = out.write_declarations(kt).finalize()
                     ctx = WK.Ctx(_FakeMember, None, kt)
-                    ctx.dims = {"T": dimv}
+                    ctx.dims = {"T": rawdim}
                     st = WK.State()
                     st.ptrs["T"] = ("TENSOR", "T")
                     cap0 = Int(WK.CAP0)
@@ -227,7 +233,7 @@ def run_append_output(report, max_order):
                     # ---------------- write_cleanup ----------------
                     frag = out.write_cleanup(kt).finalize()
                     ctx = WK.Ctx(_FakeMember, None, kt)
-                    ctx.dims = {"T": dimv}
+                    ctx.dims = {"T": rawdim}
                     st = WK.State()
                     st.ptrs["T"] = ("TENSOR", "T")
                     for n, dv in zip(idx, dimv):
